@@ -99,6 +99,17 @@ func StepInvariants(s *sim.Sim, n *Node, clausePrefix string) {
 	if c.ReservedSize < 0 {
 		s.Violate("C03.sum", n.Gen, "reserved size negative: %d", c.ReservedSize)
 	}
+	// C04 at every instant, one direction: the file an index entry points at
+	// exists (entries are inserted after their file is complete and leave the
+	// index before their file is unlinked). A violation may heal on the next
+	// read of the key, so quiescence alone would often miss it.
+	if len(o.Index) <= 24 {
+		for _, e := range o.Index {
+			if _, err := os.Stat(e.Path); err != nil && os.IsNotExist(err) {
+				s.Violate("C04.missing-file", n.Gen+"step", "index entry %s points at %s which does not exist (at a scheduling point, nobody holds the cache mutex)", e.Key, NormPath(e.Path))
+			}
+		}
+	}
 }
 
 var nameRe = regexp.MustCompile(`^(cas\.v2|ac\.v2|raw\.v2)/([0-9a-f]{2})/([0-9a-f]{64})(?:-([1-9][0-9]*))?-([0-9a-zA-Z]+)(\.v1)?$`)
